@@ -286,6 +286,27 @@ struct SlotE {
 }
 const NSLOTS: usize = 8;
 
+/// An absent element: None / empty Vec / Identity, possibly itself inside pass-through wrappers
+/// (`Some(None)`, `Box(None)`, `Some(vec![])`, `reload(None)`, ...): still absent.
+fn absent(rng: &mut Rng) -> Value {
+    let mut v = match rng.below(3) {
+        0 => json!({"k": "identity"}),
+        1 => json!({"k": "none"}),
+        _ => json!({"k": "vec", "cs": []}),
+    };
+    for _ in 0..2 {
+        if rng.chance(1, 3) {
+            v = match rng.below(4) {
+                0 => json!({"k": "some", "c": v}),
+                1 => json!({"k": "box", "c": v}),
+                2 => json!({"k": "reload", "c": v}),
+                _ => json!({"k": "vec", "cs": [v]}),
+            };
+        }
+    }
+    v
+}
+
 fn wrap_node(rng: &mut Rng, inner: Value, depth: u32) -> Value {
     if depth >= 3 || rng.chance(2, 5) {
         return inner;
@@ -297,11 +318,7 @@ fn wrap_node(rng: &mut Rng, inner: Value, depth: u32) -> Value {
         3 => json!({"k": "reload", "c": inner}),
         _ => {
             // an Identity / None / empty Vec neighbour
-            let nb = match rng.below(3) {
-                0 => json!({"k": "identity"}),
-                1 => json!({"k": "none"}),
-                _ => json!({"k": "vec", "cs": []}),
-            };
+            let nb = absent(rng);
             if rng.chance(1, 2) {
                 json!({"k": "and_then", "a": inner, "b": nb})
             } else {
@@ -320,7 +337,7 @@ impl Engine for WrapEngine {
         &["C09"]
     }
     fn rule(&self, _p: &str) -> String {
-        "configuration = 1-5 recording layers in 1-3 top-level groups, each layer wrapped 0-3 times in {Box, Some, one-element Vec, reload, and_then with an Identity/None/empty-Vec neighbour}, extra None/empty-Vec/Identity groups, the collector as a whole plain/Box/Arc/Box<Box>, base collector Registry or an id-changing recording collector, optional veto (enabled for one callsite, or event_enabled for one event) by one layer; history = spans (new/clone/drop/enter/exit/record/follows_from) and events, in half of the runs that contain a reload wrapper raced (seeded schedules) by a second thread that sits inside Handle::modify holding the wrapper's write lock; a fifth of the runs instead wrap a recording per-layer Filter (nested) in {Box, Arc, Some, reload} and compare every operation's callbacks - the filter's, its layer's, an unfiltered neighbour's - with the same history under the bare filter; non-trivial = at least 2 layers, at least one wrapper, and at least 5 lifecycle notifications (filter runs: a wrapper, >=6 filter callbacks and a veto); distinct = distinct plan digest".into()
+        "configuration = 1-5 recording layers in 1-3 top-level groups, each layer wrapped 0-3 times in {Box, Some, one-element Vec, reload, and_then with an Identity/None/empty-Vec neighbour}, extra None/empty-Vec/Identity groups (absent elements may themselves sit inside Some/Box/reload/one-element Vec), the collector as a whole plain/Box/Arc/Box<Box>, base collector Registry or an id-changing recording collector, optional veto (enabled for one callsite, or event_enabled for one event) by one layer; history = spans (new/clone/drop/enter/exit/record/follows_from) and events, in half of the runs that contain a reload wrapper raced (seeded schedules) by a second thread that sits inside Handle::modify holding the wrapper's write lock; a fifth of the runs instead wrap a recording per-layer Filter (nested) in {Box, Arc, Some, reload} and compare every operation's callbacks - the filter's, its layer's, an unfiltered neighbour's - with the same history under the bare filter; non-trivial = at least 2 layers, at least one wrapper, and at least 5 lifecycle notifications (filter runs: a wrapper, >=6 filter callbacks and a veto); distinct = distinct plan digest".into()
     }
     fn components(&self) -> Value {
         json!({"real": ["Layered (Collect and Subscribe impls)", "forwarding impls for Box/Arc<Collect>, Box<dyn Subscribe>, Option, Vec, reload::Subscriber, Identity", "Registry"], "stub": ["recording layers (PlainLayer)", "id-changing base collector"]})
@@ -353,11 +370,7 @@ impl Engine for WrapEngine {
             .collect();
         // transparent extra groups
         if gvals.len() < 3 && rng.chance(1, 3) {
-            let extra = match rng.below(3) {
-                0 => json!({"k": "none"}),
-                1 => json!({"k": "vec", "cs": []}),
-                _ => json!({"k": "identity"}),
-            };
+            let extra = absent(&mut rng);
             let pos = rng.below(gvals.len() as u64 + 1) as usize;
             gvals.insert(pos, extra);
         }
@@ -395,7 +408,7 @@ impl Engine for WrapEngine {
         // wrapper's write lock inside `Handle::modify` (seeded schedules); the wrapped layer must still see everything
         let has_reload = serde_json::to_string(&gvals).unwrap_or_default().contains("\"reload\"");
         let sync = has_reload && rng.chance(1, 2);
-        let reloader: Vec<Value> = if sync { (0..rng.range(1, 4)).map(|_| json!({"h": rng.below(4), "yields": rng.range(1, 12)})).collect() } else { vec![] };
+        let reloader: Vec<Value> = if sync { (0..rng.range(2, 8)).map(|_| json!({"h": rng.below(4), "yields": rng.range(3, 24)})).collect() } else { vec![] };
         let sched = if sync { Sched::swarm(&mut rng, 300) } else { Sched::op_order(rng.next_u64()) };
         json!({"engine": "wrap", "prop": g.prop, "mode": g.mode, "cfg": {"groups": gvals, "base": base, "wrap": wrap, "veto": veto, "nlayers": nlayers, "reloader": reloader}, "steps": steps, "sched": serde_json::to_value(&sched).unwrap()})
     }
